@@ -111,8 +111,7 @@ Fixpoint exec_ps (ps : list pstmt) (h : nat) (o : outcome) (x : st * bool) {stru
 Definition complete_step (s : st) (h : nat) : st := fst (exec_ps PendingRequest_complete h OResult (s, false)).
 Definition fail_step (s : st) (h : nat) (o : outcome) : st := fst (exec_ps PendingRequest_fail h o (s, false)).
 
-(* ---- Broker.finish(why); `o` is what `why` becomes for the requests (ODeadRef for ConnectionLost /
-   ConnectionDone, see abandon_maps_lost_connection_to_DeadReferenceError) *)
+(* ---- Broker.finish(why); `o` is what `why` becomes for the requests (see reason_outcome below) *)
 Definition abandon (s : st) (o : outcome) : st :=
   match abandon_mode_of_source with
   | AbandonEventually => set_evq s (evq s ++ map (fun e => (snd e, o)) (table s))
@@ -128,6 +127,33 @@ Fixpoint exec_f (ps : list fstmt) (o : outcome) (s : st) {struct ps} : st :=
   end.
 
 Definition finish_step (s : st) (o : outcome) : st := exec_f Broker_finish o s.
+
+(* ---- the reason given to connectionLost / shutdown, relative to broker.LOST_CONNECTION_ERRORS *)
+Inductive reason :=
+| RListed (c : lost_class)      (* exactly one of the classes the list names *)
+| RSubclass (c : lost_class)    (* a proper subclass of such a class (ConnectionAborted, SSL.SysCallError, ...) *)
+| RUnrelated.                   (* any other exception *)
+
+(* specification ("map all connection-lost errors to DeadReferenceError"): which reasons are lost connections *)
+Definition is_lost (r : reason) : bool := match r with RUnrelated => false | _ => true end.
+
+Definition lost_class_eqb (a b : lost_class) : bool :=
+  match a, b with
+  | ConnectionLostC, ConnectionLostC | ConnectionDoneC, ConnectionDoneC | SSLErrorC, SSLErrorC => true
+  | _, _ => false
+  end.
+Definition listed (c : lost_class) : bool := existsb (lost_class_eqb c) lost_connection_errors_listed.
+
+(* what the code does: the translated test of abandonAllRequests decides *)
+Definition reason_outcome (r : reason) : outcome :=
+  match r with
+  | RListed c => if listed c then ODeadRef else OOther
+  | RSubclass c => match lost_test_of_source with
+                   | LostCheckSubclasses => if listed c then ODeadRef else OOther
+                   | LostExactTypeOnly => OOther
+                   end
+  | RUnrelated => OOther
+  end.
 
 (* ---- RemoteReference._callRemote *)
 Inductive callkind :=
@@ -166,7 +192,7 @@ Inductive op :=
 | AnswerViolation (rid : Z)   (* Violation while receiving the body of an answer whose reqID was read *)
 | Complete (h : nat)          (* complete() on an already bound request object (answer finished late) *)
 | Fail (h : nat) (o : outcome)(* fail() on a request object: send failure (OSendFail), late failure *)
-| Finish (o : outcome)        (* connectionLost (o = ODeadRef) or shutdown(why) *)
+| Finish (r : reason)         (* connectionLost(why) / shutdown(why); r classifies why *)
 | Turn.                       (* the eventual-send queue runs its oldest entry *)
 
 Definition step (s : st) (x : op) : st :=
@@ -177,7 +203,7 @@ Definition step (s : st) (x : op) : st :=
   | AnswerViolation rid => match tbl_find rid (table s) with Some h => fail_step s h OViolation | None => s end
   | Complete h => complete_step s h
   | Fail h o => fail_step s h o
-  | Finish o => finish_step s o
+  | Finish r => finish_step s (reason_outcome r)
   | Turn => match evq s with [] => s | (h, o) :: q => fail_step (set_evq s q) h o end
   end.
 
